@@ -45,6 +45,9 @@ def logical_ops():
     ops["spline"] = shape(lambda p, d: c10.spline_case(p, [(3, 3, 1), (6, 0, 1), (3, -3, 0)]))
     ops["spline-closed"] = shape(lambda p, d: c10.spline_case(p, [(4, 0), (4, 4), (0, 0)]))
     ops["polyline"] = shape(lambda p, d: c10.polyline_case(p, [(2, 0), (2, 3, 1), (0, 0)]))
+    # user-supplied parametric curves in absolute coordinates; the second one does not start at the current position
+    ops["parametric"] = lambda p, d: ("parametric", {"origin": list(p), "offset": [0.0, 0.0, 0.0]}, (p[0] + 4.0, p[1], p[2] + 1.0))
+    ops["parametric-detached"] = lambda p, d: ("parametric", {"origin": list(p), "offset": [3.0, -1.0, 0.5]}, (p[0] + 7.0, p[1] - 1.0, p[2] + 1.5))
     return ops
 
 
@@ -65,6 +68,17 @@ def apply(run, kind, largs, start):
             t = largs["target"]
             with g.relative_mode():
                 g.move([t[i] - start[i] for i in range(3)])
+        elif kind == "parametric":
+            import numpy as np
+            o, off = largs["origin"], largs["offset"]
+
+            def fn(thetas, o=o, off=off):
+                # half a turn of radius 2 in XY plus a linear rise, in absolute coordinates
+                x = o[0] + off[0] + 2.0 - 2.0 * np.cos(np.pi * thetas)
+                y = o[1] + off[1] + 2.0 * np.sin(np.pi * thetas) * 0 + 0 * thetas
+                z = o[2] + off[2] + thetas
+                return np.column_stack((x, y, z))
+            g.trace.parametric(fn, 4.2)
         else:
             a = to_mode(kind, largs, start, run.mode)
             if kind in ("move", "rapid"):
